@@ -32,7 +32,8 @@ type WriteDecision struct {
 	Blackhole bool
 	// GateAfter makes the call block after Accept bytes went out; when the
 	// connection gets closed meanwhile the call fails with the partial count,
-	// otherwise the remainder is accepted once the gate opens.
+	// otherwise the remainder is accepted once the gate opens (or, with Then
+	// "timeout", the call reports an expiry with the partial count).
 	GateAfter string
 }
 
@@ -232,6 +233,13 @@ func (c *Conn) Write(p []byte) (int, error) {
 		if c.closed {
 			w.log(Event{Kind: "write", Conn: c.Idx, Off: len(c.Out), Err: "closed"})
 			return n, &net.OpError{Op: "write", Net: "sim", Err: net.ErrClosed}
+		}
+		if d.Then == "timeout" && c.wdl {
+			// the deadline expires with the accepted part as progress
+			w.log(Event{Kind: "write", Conn: c.Idx, Off: len(c.Out), Err: "timeout"})
+			c.OutFaults++
+			w.cond.Broadcast()
+			return n, &net.OpError{Op: "write", Net: "sim", Err: &timeoutError{"write"}}
 		}
 		p2 := p[n:]
 		off = len(c.Out)
